@@ -115,11 +115,15 @@ Definition sputbs (s : list N) : list N :=
 
 (* sgetbs(f, str, size):
      if (sgetb32(f, &len) < 0) return -1;
-     if (len + 1 > (uint32_t)size) return -1;      <- uint32_t arithmetic: len + 1 wraps to 0 for len = 2^32-1
+     if (len >= (uint32_t)size) return -1;
      str[len] = 0;
      return sread(f, str, (int)len);
-   sgetbs_len_ok is the negation of the test.  `size` is the int buffer size converted to uint32_t. *)
-Definition sgetbs_len_ok (len size : N) : bool := negb (size mod 2^32 <? (len + 1) mod 2^32).
+   sgetbs_len_ok is the negation of the test.  `size` is the int buffer size converted to uint32_t.
+   The reference snapshot (e695936) had `len + 1 > (uint32_t)size` here, in uint32_t arithmetic: len + 1 wraps
+   to 0 for len = 2^32-1.  That test is kept as sgetbs_len_ok_ref: the two agree except on that one length
+   (sgetbs_len_ok_ref_agree), where the old one accepts for every buffer size (sgetbs_len_wrap_accepts). *)
+Definition sgetbs_len_ok (len size : N) : bool := negb (size mod 2^32 <=? len).
+Definition sgetbs_len_ok_ref (len size : N) : bool := negb (size mod 2^32 <? (len + 1) mod 2^32).
 
 Definition sgetbs (size : N) : reader (list N) := fun l =>
   match sgetb32 l with
@@ -128,14 +132,16 @@ Definition sgetbs (size : N) : reader (list N) := fun l =>
   | Bad => Bad
   end.
 
-(* Memory safety of sgetbs is NOT implied by the test: `str[len] = 0` and the copy of `len` bytes are
-   inside the buffer of `size` bytes only when len < size.  This flag says "the test passed although
-   len >= size" (then the C writes out of bounds; the value the model's sgetbs returns is meaningless). *)
-Definition sgetbs_oob (size : N) (l : list N) : bool :=
+(* Memory safety of sgetbs: `str[len] = 0` and the copy of `len` bytes are inside the buffer of `size` bytes
+   only when len < size.  This flag says "the test `ok` passed although len >= size" (then the C writes out of
+   bounds).  With the current test it is never set (sgetbs_in_bounds); with the test of the reference snapshot
+   it is set for the length 2^32-1 (sgetbs_in_bounds_ref_refuted). *)
+Definition sgetbs_oob_with (ok : N -> N -> bool) (size : N) (l : list N) : bool :=
   match sgetb32 l with
-  | Ok (len, _) => sgetbs_len_ok len size && (size <=? len)
+  | Ok (len, _) => ok len size && (size <=? len)
   | _ => false
   end.
+Definition sgetbs_oob : N -> list N -> bool := sgetbs_oob_with sgetbs_len_ok.
 
 (* ================================================================================================ *)
 (** * Theorems *)
@@ -503,7 +509,7 @@ Qed.
 Lemma sgetbs_len_ok_lt len size : len < size -> size < 2^32 -> sgetbs_len_ok len size = true.
 Proof.
   intros H1 H2. unfold sgetbs_len_ok. rewrite (N.mod_small size) by exact H2.
-  rewrite (N.mod_small (len + 1)) by lia. apply negb_true_iff, N.ltb_ge. lia.
+  apply negb_true_iff, N.leb_gt. exact H1.
 Qed.
 
 Lemma sputbs_small s : N.of_nat (length s) < 2^32 -> sputbs s = sputb32 (N.of_nat (length s)) ++ s.
@@ -534,39 +540,46 @@ Proof.
     rewrite E2, app_length. destruct q; [congruence|]. cbn [length]. lia.
 Qed.
 
-(* The size test of sgetbs as written (uint32_t `len + 1 > size`) lets len = 2^32-1 through for EVERY
-   buffer size: len + 1 wraps to 0.  The C then executes str[0xFFFFFFFF] = 0 and
-   sread(f, str, (int)len) with (unsigned)-1 bytes -- out of bounds. *)
-Lemma sgetbs_len_wrap_accepts size : sgetbs_len_ok (2^32 - 1) size = true.
+(* the size test is exactly "the string and its terminator fit" *)
+Lemma sgetbs_len_ok_sound len size : size < 2^32 -> sgetbs_len_ok len size = true -> len < size.
 Proof.
-  unfold sgetbs_len_ok. change ((2^32 - 1 + 1) mod 2^32) with 0.
+  intros H2. unfold sgetbs_len_ok. rewrite (N.mod_small size) by exact H2.
+  intros H. apply negb_true_iff, N.leb_gt in H. exact H.
+Qed.
+
+(* hence an accepted length always fits the buffer: no out-of-bounds write, for EVERY input *)
+Theorem sgetbs_in_bounds size l : size < 2^32 -> sgetbs_oob size l = false.
+Proof.
+  intros H2. unfold sgetbs_oob, sgetbs_oob_with. destruct (sgetb32 l) as [[len t]| |]; try reflexivity.
+  destruct (sgetbs_len_ok len size) eqn:K; [|reflexivity].
+  apply (sgetbs_len_ok_sound len size H2) in K. apply N.leb_gt. exact K.
+Qed.
+
+(* The size test of the REFERENCE snapshot (uint32_t `len + 1 > size`) lets len = 2^32-1 through for EVERY
+   buffer size: len + 1 wraps to 0.  The C then executed str[0xFFFFFFFF] = 0 and sread(f, str, (int)len) with
+   (unsigned)-1 bytes -- out of bounds (fixed in the tree by commit e7500bb). *)
+Lemma sgetbs_len_wrap_accepts size : sgetbs_len_ok_ref (2^32 - 1) size = true.
+Proof.
+  unfold sgetbs_len_ok_ref. change ((2^32 - 1 + 1) mod 2^32) with 0.
   apply negb_true_iff, N.ltb_ge. lia.
 Qed.
 
-(* apart from that single value the test is what it should be *)
-Lemma sgetbs_len_ok_sound len size : len < 2^32 -> size < 2^32 -> len <> 2^32 - 1 ->
-  sgetbs_len_ok len size = true -> len < size.
+(* apart from that single value the two tests are the same function: the repair does not change which
+   files written by the reference version are readable *)
+Lemma sgetbs_len_ok_ref_agree len size : len < 2^32 -> len <> 2^32 - 1 ->
+  sgetbs_len_ok_ref len size = sgetbs_len_ok len size.
 Proof.
-  intros H1 H2 H3. unfold sgetbs_len_ok. rewrite (N.mod_small size) by exact H2.
-  rewrite (N.mod_small (len + 1)) by lia. intros H. apply negb_true_iff, N.ltb_ge in H. lia.
+  intros H1 H3. unfold sgetbs_len_ok_ref, sgetbs_len_ok. f_equal.
+  rewrite (N.mod_small (len + 1)) by lia.
+  destruct (N.ltb_spec (size mod 2^32) (len + 1)), (N.leb_spec (size mod 2^32) len); try reflexivity; lia.
 Qed.
 
-(* the statement "an accepted length fits the buffer" is refuted by a 5-byte input ... *)
-Theorem sgetbs_in_bounds_refuted : exists l, forall size, size < 2^32 -> sgetbs_oob size l = true.
+(* with the reference test the statement "an accepted length fits the buffer" is refuted by a 5-byte input *)
+Theorem sgetbs_in_bounds_ref_refuted : exists l, forall size, size < 2^32 -> sgetbs_oob_with sgetbs_len_ok_ref size l = true.
 Proof.
-  exists [127; 127; 127; 127; 143]. intros size H. unfold sgetbs_oob.
+  exists [127; 127; 127; 127; 143]. intros size H. unfold sgetbs_oob_with.
   assert (E : sgetb32 [127; 127; 127; 127; 143] = Ok (2^32 - 1, [])) by (vm_compute; reflexivity).
   rewrite E, sgetbs_len_wrap_accepts. apply N.leb_le. lia.
-Qed.
-
-(* ... and holds for every other input *)
-Theorem sgetbs_in_bounds_partial size l len t : size < 2^32 ->
-  sgetb32 l = Ok (len, t) -> len <> 2^32 - 1 -> sgetbs_oob size l = false.
-Proof.
-  intros H2 E H3. unfold sgetbs_oob. rewrite E.
-  destruct (sgetbs_len_ok len size) eqn:K; [|reflexivity].
-  apply (sgetbs_len_ok_sound len size (sgetb32_range _ _ _ E) H2 H3) in K.
-  apply andb_false_iff. right. apply N.leb_gt. exact K.
 Qed.
 
 (* non-vacuity *)
